@@ -402,18 +402,30 @@ def safetensors(chk):
                             if isinstance(lp, ast.For):
                                 helper_loops.append((r[1], lp))
         cands = [(save, lp) for lp in loops] + helper_loops
+        extension_branches = []
         for outer, lp in cands:
             yes = no = None
             for bp in loop_body_paths(outer, lp):
                 fb = path_facts(bp)
                 leaf = None
-                for k_, v_ in fb.items():
-                    if k_.startswith("type(") and k_.endswith(") == torch.Tensor"):
-                        leaf = v_
-                    elif k_.startswith("isinstance(") and "Tensor" in k_:
-                        leaf = ("isinstance", v_)
-                    elif k_.startswith("isinstance(") and ", str)" in k_:
-                        leaf = ("isstr", v_)
+                type_fact = [v_ for k_, v_ in fb.items() if k_.startswith("type(") and k_.endswith(") == torch.Tensor")]
+                # other class tests that HOLD on this path (`isinstance(value, QTensor)`, `type(value) == torch.nn.Parameter`): a branch that serves one more
+                # kind of entry before / after the plain-tensor test - an extension of what safe_save accepts, not the split of a state_dict
+                other_true = [k_ for k_, v_ in fb.items() if v_ is True and (k_.startswith("isinstance(") or (k_.startswith("type(") and " == " in k_ and not k_.endswith(") == torch.Tensor")))]
+                if type_fact:
+                    if type_fact[-1] is False and other_true:
+                        extension_branches.append(other_true[0])
+                        continue
+                    leaf = type_fact[-1]
+                elif other_true and any(k_.startswith("type(") and k_.endswith(") == torch.Tensor") for bp2 in loop_body_paths(outer, lp) for k_ in path_facts(bp2)):
+                    extension_branches.append(other_true[0])
+                    continue
+                else:
+                    for k_, v_ in fb.items():
+                        if k_.startswith("isinstance(") and "Tensor" in k_:
+                            leaf = ("isinstance", v_)
+                        elif k_.startswith("isinstance(") and ", str)" in k_:
+                            leaf = ("isstr", v_)
                 stores = [U(ef[1]) for ef in bp.effects if ef[0] == "substore"]
                 if leaf is True:
                     yes = stores
@@ -431,6 +443,8 @@ def safetensors(chk):
                 verdict = ("ok", "")
             elif any("isinstance(" in t for t in tests):
                 verdict = ("bad", "the split uses isinstance")
+        if verdict is not None and verdict[0] == "ok" and extension_branches:
+            chk.unknown("C10.R5", site, f"safe_save also serves entries that are not plain tensors or strings ({sorted(set(extension_branches))[:2]}): what it writes for them is not followed")
         if verdict is None:
             chk.unknown("C10.R5", site, "safe_save: how the state_dict is split was not recognised")
         else:
